@@ -30,7 +30,7 @@
 From Coq Require Import List NArith Bool Arith Lia Ring Permutation.
 From PV Require Import Graph.OpFamily Graph.Tape Graph.Lazy Graph.Backward Graph.TapeLemmas Graph.LazyProofs
   Graph.BackwardProofs Graph.ADProof Tensor.Kernels Tensor.Index Tensor.KernelProofs
-  Tensor.ProofsGather Tensor.ProofsPerm Tensor.ProofsBilinear Tensor.AdjCore.
+  Tensor.ProofsGather Tensor.ProofsPerm Tensor.ProofsBilinear Tensor.AdjCore Tensor.AdjMatmul.
 Import ListNotations.
 
 (* ================================================================== guards (scalar-free) *)
@@ -483,7 +483,8 @@ Section Family.
   | OBatchSplit (sx sy : tshape) (n : nat)
   | OConv2d (sx sw sy : tshape) (p0 p1 s0 s1 d0 d1 : nat)
   | OBatchConcat (xs : list tshape) (sy : tshape)
-  | OConcat (xs : list tshape) (sy : tshape) (dim : nat).
+  | OConcat (xs : list tshape) (sy : tshape) (dim : nat)
+  | OMatmul (sa sb sy : tshape).
 
   Definition leaf_desc (s : tshape) (v : list R) (ok nop : bool) : opdesc :=
     {| d_args := []; d_rets := [s]; d_ok := ok; d_nop := nop;
@@ -552,6 +553,7 @@ Section Family.
     | OConcat xs sy dim =>
         nary_desc rO xs sy (concat_ok xs sy dim) (concat_fw xs sy dim)
           (fun k gy => concat_bw sy (nth k xs dshape) dim (concat_off xs dim k) gy)
+    | OMatmul sa sb sy => matmul_desc rO radd rmul sa sb sy
     end.
 
   Definition core_family : OpFamily cop tshape (@OpFamily.vec R) :=
@@ -631,6 +633,7 @@ Section Family.
       apply (nary_LA rO rI radd rmul rsub ropp Rth xs sy _ _ (fun k => slice_bw (nth k xs dshape) sy dim (concat_off xs dim k))).
       intro H. destruct (concat_ok_spec xs sy dim H) as (Hc & Hf & Hk). split; [exact Hc|split; [exact Hf|]].
       intros k sk Esk. rewrite (nth_error_nth _ _ dshape Esk). apply paste_adj. apply Hk. exact Esk.
+    - (* MatrixMultiply *) apply (matmul_LA rO rI radd rmul rsub ropp Rth).
   Qed.
 
   (* a descriptor's adjointness is LocalAdjoint of the family *)
